@@ -25,6 +25,8 @@ def cases(draw, nums, pmax=5, kmax=5):
     if draw(st.integers(0, 7)) == 0:
         kmax = 9  # many spans
     c = draw(gen.curves(0, pmax, kmax, nums=nums, regimes="all"))
+    # the weight function equal to exactly 1 at one evaluated parameter (weights not all 1)
+    c = dict(c, w=draw(gen.unit_weight_function(c["U"], c["w"], 3)))
     outside = draw(gen.outside_params(c["U"]))
     seqtype = draw(st.sampled_from(["tuple", "list", "ndarray", "gen", "iter", "map"]))
     return {"curve": c, "outside": outside, "seqtype": seqtype, "order": draw(st.sampled_from(lib.SEQ_ORDERS)),
